@@ -253,6 +253,28 @@ pub fn verify_reqs(pool: &Pool, sc: &Scenario, reqs: &[ReqSpec], proof: &Proof, 
     })
 }
 
+/// as `verify`, with the common attributes declared after `after` sub-proof requests were added
+/// (the API asks for them "before proof verification starts", in any order relative to the requests)
+pub fn verify_declared_after(pool: &Pool, sc: &Scenario, proof: &Proof, nonce: &Nonce, after: usize) -> Out<bool> {
+    guard(|| {
+        let mut pv = Verifier::new_proof_verifier()?;
+        let mut declared = false;
+        for (i, (h, r)) in sc.held.iter().zip(sc.reqs.iter()).enumerate() {
+            if i == after {
+                for a in &sc.common { pv.add_common_attribute(a)?; }
+                declared = true;
+            }
+            let cd = pool.get(&h.cd_name);
+            let req = r.build().map_err(|e| err_msg_s(&e))?;
+            pv.add_sub_proof_request(&req, &cd.schema, &cd.non_schema, &cd.pk, None, None)?;
+        }
+        if !declared {
+            for a in &sc.common { pv.add_common_attribute(a)?; }
+        }
+        pv.verify(proof, nonce)
+    })
+}
+
 pub fn err_msg_s(e: &str) -> Error {
     Error::new(ErrorKind::InvalidState, e.to_string())
 }
@@ -620,6 +642,21 @@ fn gen_common(thorough: bool, rng: &mut Rng) -> Result<(), String> {
         implv["oracles"] = json!(oracles);
         let base = jv(&proof);
         emit(&verify_case(&format!("common/{}", k), &pool, &sc, &base, &nonce_dec, implv, json!({"alteration":"none","kind": if should_accept {"equal"} else {"different"}})));
+        // the same proof, the verifier declaring the common attributes after the first / after all
+        // sub-proof requests (seventh seeding round: a declaration made late was silently ignored)
+        for (label, after) in [("declared-mid", 1usize), ("declared-last", ncred)] {
+            let vl = verify_declared_after(&pool, &sc, &proof, &sc.nonce, after);
+            let mut ol = vec![];
+            if should_accept && !matches!(vl, Out::Ok(true)) {
+                ol.push(json!({"name":"honest_proof_verifies","ok":false,"detail":format!("equal common values not accepted when the verifier declares the common attributes after {} sub-proof requests: {} {} {}", after, vl.tag(), vl.msg(), class)}));
+            }
+            if !should_accept && matches!(vl, Out::Ok(true)) {
+                ol.push(json!({"name":"common_attribute_enforced","ok":false,"detail":format!("proof over credentials with different values of a declared common attribute accepted when the verifier declares it after {} sub-proof requests: {}", after, class)}));
+            }
+            let mut il = out_bool_json(&vl);
+            il["oracles"] = json!(ol);
+            emit(&verify_case(&format!("common/{}/{}", k, label), &pool, &sc, &base, &nonce_dec, il, json!({"alteration":"none","kind": label, "expect": should_accept})));
+        }
         // adversarial variants on the proof document
         let attrs: Vec<&str> = sc.common.iter().map(|s| s.as_str()).collect();
         for a in attrs {
